@@ -13,7 +13,8 @@ GEN_GROUPS = ["Sorted", "SortedZ"]
 TARGETS = ["coq/Props/C08.vo", "coq/Model/Sorted.vo"]
 CASES = {"quick": 220, "thorough": 5000}
 UNC = {"quick": 40, "thorough": 800}
-SEQS = {"quick": 26, "thorough": 400}          # multi-call sequences on ONE algorithm object (about 6 calls each)
+SEQS = {"quick": 24, "thorough": 400}
+MFR = {"quick": 40, "thorough": 800}            # direct calls of the static search functions          # multi-call sequences on ONE algorithm object (about 6 calls each)
 SIMS = {"quick": 10, "thorough": 150}
 SIM_CALLS = {"quick": 80, "thorough": 1500}
 CORR_HEADER = ("From Coq Require Import ZArith QArith List String.\n"
@@ -21,7 +22,7 @@ CORR_HEADER = ("From Coq Require Import ZArith QArith List String.\n"
                "Open Scope string_scope.\nOpen Scope Q_scope.\n")
 CHECK_FN = "check_c08"
 SHARD = 20
-RULE = ("C07 unit generator restricted to sessions with DISTINCT priority keys for the chosen order (equal keys are counted as "
+RULE = ("[checklist families: object reuse, interleaved instances, caller-owned data frozen/vandalised, odd ids and dtypes, mid-run JSON round trip, constraint mutations between calls, odd periods/increments, interrupted+resumed runs, second process with another hash seed, direct entry points] C07 unit generator restricted to sessions with DISTINCT priority keys for the chosen order (equal keys are counted as "
         "skipped, kind 'tie-skipped'): unequal voltages / max pilots / limits so that laxity and processing-time orders differ "
         "from arrival order, several constraints binding at once, continuous and finite-rate EVSEs, all five orders x "
         "{greedy, round robin} x estimator x uninterrupted x increments. Compared: everything C07 compares (schedule, order, "
@@ -39,7 +40,7 @@ ASSUMPTIONS = [
 TRUSTED_EXTRA = ["harness/sorted_common.py (generator, stub driver, exact/float twin used only to flag ambiguous cases)"]
 
 COMBOS = [(a, s, e, u, i) for a in ("greedy", "rr") for s in sc.SORTS for e in (False, True) for u in (False, True)
-          for i in ((0.1, 0.5, 1.0) if a == "rr" else (0.5, 0.5, 0.5))]      # greedy and round robin equally often
+          for i in ((0.1, 0.5, 1.0, 3.0, 0.3, 7.0) if a == "rr" else (0.5,) * 6)]      # greedy and round robin equally often; increments that do not divide the range
 F = fractions.Fraction
 EDGE = [-1e-3, -5e-3, -9e-3, -2e-2, -1e-4, 1e-3, 5e-3, 2e-2]
 
@@ -105,26 +106,38 @@ def extra_streams(rng, tier):
     #     switches); every call is compared with the model fed that call's true state
     seq = []
     for k in range(SEQS[tier]):
-        for scn, impl, tag in sc.run_sequence(rng, tier, algo=("greedy", "greedy", "rr")[k % 3]):
+        # every fourth: TWO live instances on same-shaped networks called alternately
+        run = sc.run_interleaved(rng, tier) if k % 4 == 3 else sc.run_sequence(rng, tier, algo=("greedy", "greedy", "rr")[k % 3])
+        for scn, impl, tag in run:
             seq.append(mk_case(scn, tag, impl=impl))
+    mfr = [sm.mfr_case(rng, tier) for _ in range(MFR[tier])]
     # (3) the same inside real Simulators (what the scheduler returned in the simulation, call by call)
     sims = sm.sim_stream(rng, SIMS[tier], SIM_CALLS[tier], tier,
                          lambda snap, src, impl=None: (mk_unc(snap, impl, "sim-unc") if snap["algo"] == "unc"
                                                        else mk_case(snap, src, impl=impl)), with_unc=True)
     unc += [c for c in sims if c["input"].get("algo") == "unc"]
     sims = [c for c in sims if c["input"].get("algo") != "unc"]
+    for k, msg in sm.hashseed_recheck(unc, limit=8).items():
+        unc[k]["hash_violation"] = msg
     return [("unc", CORR_HEADER, "check_uncontrolled", unc), ("seq", CORR_HEADER, CHECK_FN, seq),
-            ("sim", CORR_HEADER, CHECK_FN, sims)]
+            ("sim", CORR_HEADER, CHECK_FN, sims), ("mfr", CORR_HEADER, "check_mfr", mfr)]
 
 
 def monitor(case):
     if case.get("sim_violation"):
         return None          # C07's business
+    if case.get("hash_violation"):
+        return case["hash_violation"]
+    if "mfr" in case["input"]:
+        return None if case.get("ambiguous") else sm.monitor_mfr(case["input"]["mfr"], case["impl"])
     if case["input"].get("algo") == "unc":
         return sm.monitor_unc(case["input"], case["impl"])
     if case.get("ambiguous"):
         return None
-    return sm.monitor_c08(case["input"], case["impl"]) or sm.monitor_rr_trace(case["input"], case["impl"])
+    i_ = case["impl"]
+    if i_.get("data_mutated") or i_.get("held_changed"):
+        return sm.monitor_c07(case["input"], i_)
+    return sm.monitor_c08(case["input"], i_) or sm.monitor_rr_trace(case["input"], i_)
 
 
 def search(rng, budget_s, broken):
@@ -137,6 +150,11 @@ def search(rng, budget_s, broken):
             r = sm.monitor_c08(scn, c["impl"]) or sm.monitor_rr_trace(scn, c["impl"])
             if r:
                 return dict(case=scn, impl=c["impl"], why=r)
+        c3 = sm.mfr_case(rng, "quick")
+        if not c3["ambiguous"]:
+            r = sm.monitor_mfr(c3["input"]["mfr"], c3["impl"])
+            if r:
+                return dict(case=c3["input"], impl=c3["impl"], why=r)
         for scn2, impl2, tag in sc.run_unc_pair(rng, "quick"):
             r = sm.monitor_unc(scn2, impl2)
             if r:
@@ -151,6 +169,8 @@ def search(rng, budget_s, broken):
 
 
 def replay(w):
+    if "mfr" in w["case"]:
+        return sm.monitor_mfr(w["case"]["mfr"], sm.run_mfr(w["case"]["mfr"]))
     scn, impl = sc.replay_with_history(w["case"])
     if scn["algo"] == "unc":
         return sm.monitor_unc(scn, impl)
